@@ -355,11 +355,19 @@ func Check(spec *Spec, o Options) int {
 	}
 	if len(spec.TestPkgs) > 0 && os.Getenv("VERIF_SKIP_TRANSPARENCY") == "" {
 		t0 := time.Now()
-		if err := sc.TestInstrumented(spec.TestPkgs); err != nil {
-			return trouble("transparency self-test failed: the repository's own tests do not pass on the instrumented copy (instrumenter defect, or the tree under test fails its own tests):\n%v", err)
+		err1 := sc.TestInstrumented(spec.TestPkgs)
+		if err1 != nil {
+			// once more: a tree whose own tests are flaky (they start real
+			// goroutines) is not an instrumenter defect
+			if err2 := sc.TestInstrumented(spec.TestPkgs); err2 != nil {
+				return trouble("transparency self-test failed twice: the repository's own tests do not pass on the instrumented copy (instrumenter defect, or the tree under test fails its own tests):\n%v", err2)
+			}
+			logf("transparency self-test: failed once, passed on the second attempt (the tree's own tests are flaky):\n%v", err1)
+			selfTests = append(selfTests, "transparency: the repository's own tests failed once and passed once on the instrumented copy (flaky tests in the tree under test)")
+		} else {
+			selfTests = append(selfTests, fmt.Sprintf("transparency: the repository's own tests of %v pass on the instrumented copy", spec.TestPkgs))
 		}
 		logf("transparency self-test: the repository's tests pass on the instrumented copy (%.1fs)", time.Since(t0).Seconds())
-		selfTests = append(selfTests, fmt.Sprintf("transparency: the repository's own tests of %v pass on the instrumented copy", spec.TestPkgs))
 	}
 	if o.Tier == "thorough" && os.Getenv("VERIF_SKIP_DETERMINISM") == "" {
 		t0 := time.Now()
